@@ -172,7 +172,7 @@ class MetadataAware(metaclass=abc.ABCMeta):
         """
         Dump the metadata to a `str`.
         """
-        forbidden = {';', '='}
+        forbidden = {';', '=', '\n', '\r'}
         for k, v in self.metadata.items():
             if any([token in k or token in v for token in forbidden]):
                 raise ValueError(f'Metadata contains forbidden characters {forbidden}')
